@@ -35,6 +35,10 @@ def plan_C15(tier, seed):
     jobs = [
         Job("table-chk", "chk", "c15", n + 1, {"max_len": n}, nshards=min(16, n + 1), crash_is_violation=True),
         Job("table-rel", "rel", "c15", n + 1, {"max_len": n}, nshards=min(16, n + 1), crash_is_violation=True),
+        # the cell table (all six type shapes, incl. the ones with drop glue) under Miri: a combinator that
+        # duplicates, forgets or reads a moved-out value is undefined behaviour / a leak there
+        Job("table-miri", "miri-san", "c15", q(tier, 1, 4), {"max_len": 3}, nshards=q(tier, 1, 4), crash_is_violation=True,
+            wall_limit=1800),
     ]
     return {
         "level": "exploration",
@@ -50,7 +54,7 @@ def plan_C15(tier, seed):
                 "the documentation. Cases k>=1 enumerate all token strings of length k-1 over {a,b,c,d,e,z} through a composed "
                 "grammar and compare result and closure-invocation trace with a direct reference. Distinct = distinct cell "
                 "names + distinct token strings of length >= 2; every cell is non-trivial (each is a different row of the "
-                "specification). Run in the chk (debug assertions) and rel builds.",
+                "specification). Run in the chk (debug assertions) and rel builds, and the cell table also under Miri.",
         "jobs": jobs,
         "primary_jobs": ["table-chk"],
         "eval_counters": ["cells", "grammar_strings"],
